@@ -2,6 +2,8 @@ package harness
 
 import (
 	"time"
+
+	"github.com/platinummonkey/go-concurrency-limits/core"
 )
 
 const (
@@ -123,7 +125,7 @@ func runC12(r *Run) {
 		maxClients: scale(7, 9), arrivals: []time.Duration{0, 0, ms, 2 * ms}, holds: []time.Duration{0, ms, 2 * ms},
 		qTimeouts: []time.Duration{ms, 2 * ms, 3 * ms, time.Second}, bTimeouts: []time.Duration{time.Second},
 		cancelPct: 25, cancelTimes: []time.Duration{ms, 2 * ms, 3 * ms},
-		backlogs: []int{1, 2, 3, 4}, limits: []int{1, 2}, relTimes: []time.Duration{0, ms, 2 * ms, 3 * ms},
+		backlogs: []int{1, 2, 3, 4, 1, 2, 3, -1, 0}, limits: []int{1, 2}, relTimes: []time.Duration{0, ms, 2 * ms, 3 * ms},
 		queueOnly: true,
 	})
 	if sc == nil {
@@ -195,6 +197,11 @@ func runC12(r *Run) {
 				s.Fail("backlog-overflow", sc.cfg.Key(), "queue_size %d exceeds the maximum %d", q, maxB)
 			}
 		}
+		if g := sc.st.Reg.Gauge(core.MetricQueueLimit); g != nil {
+			if v, ok := g.Value(); ok && int(v) != maxB {
+				s.Fail("backlog-bound-wrong", sc.cfg.Key(), "the queue limiter reports a backlog bound of %v; configured %d means %d (documented default 100 for values <= 0) [%s]", v, sc.cfg.Backlog, maxB, sc.cfg)
+			}
+		}
 	}
 	s.OnDrain = sc.drainHeld
 	s.Run()
@@ -214,6 +221,8 @@ func runC13(r *Run) {
 		cancelPct: 50, cancelTimes: []time.Duration{0, ms, 2 * ms, 3 * ms},
 		backlogs: []int{10}, limits: []int{1, 2}, relTimes: []time.Duration{ms, 2 * ms, 3 * ms, 2*ms - 1, 2*ms + 1},
 		preHeldAll: !variantC, noReleases: !variantB,
+		// caller contexts with their own deadline, off the 1 ms grid so they never coincide with a timeout
+		ctxDeadlinePct: 20, ctxDeadlines: []time.Duration{ms / 2, ms + ms/2, 2*ms + ms/2, 700 * ms},
 	}
 	if variantC {
 		o.kinds = []string{"blocking", "deadline", "deadline", "pool"}
@@ -305,6 +314,15 @@ func c13End(r *Run, sc *scen, variantB, isQueue, isBlocking bool) func() {
 			if cancelApplies && cl.canceled.Load() {
 				c := cl.cancelT
 				if cl.spec.preCancel || c < arrive {
+					c = arrive
+				}
+				if c < bound {
+					bound = c
+				}
+			}
+			if cancelApplies && cl.spec.ctxDeadline > 0 {
+				c := int64(cl.spec.ctxDeadline)
+				if c < arrive {
 					c = arrive
 				}
 				if c < bound {
